@@ -1,5 +1,5 @@
 From Coq Require Extraction.
 From Coq Require Import ExtrOcamlBasic.
-From NV Require Import Base.Witness Index.Bins Index.Chunks Index.Indexer Index.QueryFast.
+From NV Require Import Base.Witness Index.Bins Index.Chunks Index.Indexer Index.QueryFast Index.AlignEnd.
 Extraction "model.ml" nv_types_witness build_ref query_fast query_records scan_records mkrec
-  bins lin loffs Linear Binned.
+  bins lin loffs Linear Binned alignment_end.
